@@ -185,6 +185,20 @@ def one_case(ctx, k):
                     argv = base + (["-j", "2", "--buffer-size", "2000"] if cores == 2 else []) + ["-o", nm(1, cores, sfx)] + (["-p", nm(2, cores, sfx)] if paired else []) + ins
                     variant(f"name-consistency={stem}{sfx} cores={cores}", argv, [(nm(1, cores, sfx), 1)] + ([(nm(2, cores, sfx), 2)] if paired else []),
                             expect_fmt=f0[0], names_seqs_only=(f0[0] == "fasta"))
+        # --- two-file output whose two names do not say the same: whatever the plain single-core run writes into each file,
+        #     a compression suffix and a second core must not change it
+        if paired:
+            e1, e2 = rng.choice([(".txt", ".fasta"), (".fasta", ".txt"), ("", ".fa"), (".fq", ".fasta"), (".fasta", ".fastq"), (".out", ".out")])
+            pn = lambda mate, cores, sfx: f"y{mate}_{cores}{e1 if mate == 1 else e2}{sfx}"
+            r0 = climon.run(d, base + ["-o", pn(1, 1, ""), "-p", pn(2, 1, "")] + ins, tag="pn0", trace=False)
+            f1, f2 = stream(d, pn(1, 1, "")), stream(d, pn(2, 1, ""))
+            if r0.rc == 0 and f1[0] not in ("missing", "error") and f2[0] not in ("missing", "error") and f1[1] and f2[1]:
+                for sfx, cores in (("", 2), (rng.choice([".gz", ".bz2", ".xz"]), 1)):
+                    argv = base + (["-j", "2", "--buffer-size", "2000"] if cores == 2 else []) + ["-o", pn(1, cores, sfx), "-p", pn(2, cores, sfx)] + ins
+                    variant(f"pair-names={e1}+{e2}{sfx} cores={cores} R1", argv, [(pn(1, cores, sfx), 1)], expect_fmt=f1[0], names_seqs_only=(f1[0] == "fasta"))
+                    variant(f"pair-names={e1}+{e2}{sfx} cores={cores} R2", argv, [(pn(2, cores, sfx), 2)], expect_fmt=f2[0], names_seqs_only=(f2[0] == "fasta"))
+            else:
+                ctx.count("pair-names-plain-run-unusable")
         # --- unknown extension: falls back to the input format
         argv = base + ["-o", "u1.out"] + (["-p", "u2.out"] if paired else []) + ins
         variant("name=.out", argv, [("u1.out", 1)] + ([("u2.out", 2)] if paired else []))
@@ -220,6 +234,11 @@ def one_case(ctx, k):
             variant("input=stdin", base + ["-o", "si1.fastq", "-"], [("si1.fastq", 1)], stdin_path=os.path.join(d, "in1.fastq"))
             variant("input=stdin cores=2", base + ["-j", "2", "--buffer-size", "2000", "-o", "si2.fastq", "-"], [("si2.fastq", 1)],
                     stdin_path=os.path.join(d, "in1.fastq"))
+        else:
+            # paired data on standard output is interleaved; --fasta applies to it as well
+            variant("stdout interleaved", base + ["--interleaved"] + ins, [("-", "interleaved")])
+            variant("stdout interleaved --fasta", base + ["--interleaved", "--fasta"] + ins, [("-", "interleaved")], expect_fmt="fasta")
+            variant("stdout interleaved --fasta cores=2", base + ["--interleaved", "--fasta", "-j", "2"] + ins, [("-", "interleaved")], expect_fmt="fasta")
         # --- compression level does not change the content
         lvl = rng.choice(["1", "5", "9"])
         argv = base + ["--compression-level", lvl, "-o", "cl1.fastq.gz"] + (["-p", "cl2.fastq.gz"] if paired else []) + ins
